@@ -64,6 +64,14 @@ func (e *Exec) SelfTest(corpus []string, patterns []string, seed int64) (checks 
 				if got, want := cint(e.Index(ss, cs, nil)), int64(strings.Index(s, sep)); got != want {
 					bad("Index(%q,%q)=%d want %d", s, sep, got, want)
 				}
+				// separator as a non-concrete value; subject as a concrete one
+				checks += 2
+				if got, want := cint(e.Index(ss, build(sep), nil)), int64(strings.Index(s, sep)); got != want {
+					bad("Index(%q, symbolic %q)=%d want %d", s, sep, got, want)
+				}
+				if got, want := cint(e.Index(e.ConcStr(s), build(sep), nil)), int64(strings.Index(s, sep)); got != want {
+					bad("Index(concrete %q, symbolic %q)=%d want %d", s, sep, got, want)
+				}
 				if got, want := cint(e.LastIndex(ss, cs)), int64(strings.LastIndex(s, sep)); got != want {
 					bad("LastIndex(%q,%q)=%d want %d", s, sep, got, want)
 				}
